@@ -338,7 +338,15 @@ def schedule_strategy(draw, T):
         return {"is_always_off": True}
     if kind == "fixed":
         n = draw(st.integers(1, min(6, T - 1)))
-        return {"fixed_on_time_steps": sorted(draw(st.sets(st.integers(0, T - 1), min_size=n, max_size=n)))}
+        steps = sorted(draw(st.sets(st.integers(0, T - 1), min_size=n, max_size=n)))
+        order = draw(st.sampled_from(["sorted", "sorted", "reversed", "shuffled", "duplicated"]))
+        if order == "reversed":
+            steps = steps[::-1]
+        elif order == "shuffled":
+            steps = draw(st.permutations(steps))
+        elif order == "duplicated":  # the list is a set of step indices: listing one twice changes nothing
+            steps = steps + [steps[draw(st.integers(0, len(steps) - 1))]]
+        return {"fixed_on_time_steps": list(steps)}
     if kind == "window":
         a = draw(st.integers(1, T - 3))
         b = draw(st.integers(a, T - 2))
